@@ -74,7 +74,7 @@ func engModelled(t *Target, od bool) bool {
 		switch t.Cmd.Op {
 		case "concat", "const", "copydir", "listnames", "fail", "catall":
 			return len(t.OutDirs) == 0 && len(t.Tools) == 0
-		case "usetool": // the model's UseTool: the tools are labels
+		case "usetool", "toolnames": // the model's UseTool / ToolNames: the tools are labels
 			for _, x := range t.Tools {
 				if !strings.HasPrefix(x, "//") {
 					return false
@@ -643,6 +643,8 @@ func engKind(t *Target, pkg string) string {
 		return lib.App("Genrule", lib.App("CatAll", lib.Str(pkg)))
 	case "usetool":
 		return "(Genrule UseTool)"
+	case "toolnames":
+		return "(Genrule ToolNames)"
 	case "outdir":
 		if !engModelled(t, true) {
 			panic("engine model covers output_dirs targets only with output_dirs = [_o] and file sources")
